@@ -76,6 +76,8 @@ def targets(T: str) -> dict[str, tuple[dict[str, str], str, str, str]]:  # noqa:
     t["reexp_public_module_shorter"] = ({f"sp{T}/__init__.py": "", f"sp{T}/b{T}.py": c, "__init__.py": f"from .sp{T}.b{T} import {B}\n"}, f"from {PKG}.u{T}.sp{T}.b{T} import {B}\n", B, f"a{T}.py")
     t["reexp_by_other_pkg_longer_name"] = ({f"io{T}/__init__.py": "", f"io{T}/_b{T}.py": c, f"public_interface_with_long_name{T}/__init__.py": f"from {PKG}.u{T}.io{T}._b{T} import {B}\n", f"public_interface_with_long_name{T}/x{T}.py": f"def xf{T}() -> int:\n    return 1\n"}, f"from {PKG}.u{T}.io{T}._b{T} import {B}\n", B, f"a{T}.py")
     t["reexp_by_other_pkg_alias"] = ({f"io{T}/__init__.py": "", f"io{T}/_b{T}.py": c, f"facade{T}/__init__.py": f"from {PKG}.u{T}.io{T}._b{T} import {B}\n", f"facade{T}/x{T}.py": f"def xf{T}() -> int:\n    return 1\n"}, f"from {PKG}.u{T}.facade{T} import {B}\n", B, f"a{T}.py")
+    # the same with the relative spelling of the import in the re-exporting package ('from ..io import')
+    t["reexp_by_other_pkg_two_dots"] = ({f"io{T}/__init__.py": "", f"io{T}/_b{T}.py": c, f"facade{T}/__init__.py": f"from ..io{T}._b{T} import {B}\n", f"facade{T}/x{T}.py": f"def xf{T}() -> int:\n    return 1\n"}, f"from {PKG}.u{T}.facade{T} import {B}\n", B, f"a{T}.py")
     chain = {f"cp{T}/__init__.py": f"from ._b{T} import {B}\n", f"cp{T}/_b{T}.py": c, "__init__.py": f"from .cp{T} import {B}\n"}
     t["reexp_chain_via_pkg"] = (chain, f"from {PKG}.u{T} import {B}\n", B, f"a{T}.py")
     t["reexp_chain_via_sub"] = (chain, f"from {PKG}.u{T}.cp{T} import {B}\n", B, f"a{T}.py")
@@ -86,10 +88,16 @@ def targets(T: str) -> dict[str, tuple[dict[str, str], str, str, str]]:  # noqa:
     t["sibling_snake_case_name"] = ({f"b{T}.py": CLS.format(n=f"snake_b{T}", T=T)}, f"from .b{T} import snake_b{T}\n", f"snake_b{T}", f"a{T}.py")
     # the package re-exports ANOTHER class whose name ends with the referenced class's name (DataB<T> vs B<T>)
     t["suffix_of_reexported_name"] = ({f"b{T}.py": c, f"_core{T}.py": CLS.format(n=f"Data{B}", T=T + "q"), "__init__.py": f"from ._core{T} import Data{B}\n"}, f"from .b{T} import {B}\n", B, f"a{T}.py")
+    # the user module imports the class under an alias and declares a class of its own under the ORIGINAL name (dateutil.rrule.weekday)
+    t["aliased_import_shadowed_by_local_class"] = ({f"b{T}.py": c}, f"from .b{T} import {B} as Base{T}\n\n\nclass {B}(Base{T}):\n    def own_m{T}(self) -> int:\n        return 2\n\n\n", f"Base{T}", f"a{T}.py")
     t["private_not_reexported"] = ({f"_b{T}.py": c}, f"from ._b{T} import {B}\n", B, f"a{T}.py")
     t["private_class"] = ({f"b{T}.py": CLS.format(n="_" + B, T=T)}, f"from .b{T} import _{B}\n", f"_{B}", f"a{T}.py")
     t["nested_other_module"] = ({f"b{T}.py": f"class O{T}:\n    class I{T}:\n        def m{T}(self) -> int:\n            return 1\n"}, f"from .b{T} import O{T}\n", f"O{T}.I{T}", f"a{T}.py")
     t["enum_other_module"] = ({f"b{T}.py": f"from enum import Enum\n\n\nclass {B}(Enum):\n    X{T} = 1\n"}, f"from .b{T} import {B}\n", B, f"a{T}.py")
+    # an enum that its package re-exports (from a public and from a private module); enums are never moved to the package
+    enum_src = f"from enum import Enum\n\n\nclass {B}(Enum):\n    X{T} = 1\n"
+    t["enum_reexported_public_module"] = ({f"b{T}.py": enum_src, "__init__.py": f"from .b{T} import {B}\n"}, f"from {PKG}.u{T} import {B}\n", B, f"a{T}.py")
+    t["enum_reexported_private_module"] = ({f"_b{T}.py": enum_src, "__init__.py": f"from ._b{T} import {B}\n"}, f"from {PKG}.u{T} import {B}\n", B, f"a{T}.py")
     t["dup_short_name"] = ({f"d1{T}.py": CLS.format(n="Dup", T=T), f"d2{T}.py": CLS.format(n="Dup", T=T + "x")}, f"from .d2{T} import Dup\n", "Dup", f"a{T}.py")
     t["lib_collections"] = ({}, "import collections\n", "collections.OrderedDict", f"a{T}.py")
     t["lib_pathlib"] = ({}, "from pathlib import Path\n", "Path", f"a{T}.py")
@@ -131,7 +139,7 @@ def unit_files(T: str, tname: str, positions: list[str], second: tuple[str, str]
             if rel == "__init__.py":
                 files[f"{root}/__init__.py"] = files.get(f"{root}/__init__.py", "") + text.replace(f"u{T2}", f"u{T}")
             else:
-                files[f"{root}/{rel}"] = text
+                files[f"{root}/{rel}"] = text.replace(f"u{T2}", f"u{T}")
         body = body.replace(HEADER, HEADER + (imp2.replace(f"u{T2}", f"u{T}") if not imp2.startswith("class") else ""), 1)
         if imp2.startswith("class"):
             parts.append(imp2)
@@ -219,6 +227,8 @@ def run(rep: Report, tier: str, seed: int) -> None:
         for p1, p2 in (("param", "result"), ("superclass", "param")):
             if ("superclass" in (p1, p2)) and (t1.startswith("builtin") or t1.startswith("lib_unres")):
                 continue
+            if targets("0")[t1][3].count("/") and targets("0")[t2][1].startswith("from ."):
+                continue  # the second reference's relative import would not resolve from a user module inside a sub-package
             T = f"{next(tid):04d}"  # noqa: N806
             units.append((f"{t1}:{p1}+{t2}:{p2}", f"{t1}:{p1}|{t2}:{p2}", unit_files(T, t1, [p1], (t2, p2))))
     rep.rule = (
@@ -263,6 +273,8 @@ def run(rep: Report, tier: str, seed: int) -> None:
                 if not mt or f"u{mt.group(1)}" not in by_unit:
                     continue
                 label, feat, fs = by_unit[f"u{mt.group(1)}"]
+                if (d.py_name or d.name).endswith("z") and "|" in feat and feat.split("|")[1] != "-":
+                    feat = feat.split("|")[1]  # the second reference of a pair unit carries the marker 'z'
                 src = "\n".join(fs.values())
                 is_enum = _re2.search(rf"class {_re2.escape(d.py_name or d.name)}\(Enum\)", src) is not None
                 real = (d.kind == "enum" and d.members) if is_enum else (d.kind == "class" and any(x.kind == "fun" for x in d.members))
